@@ -304,7 +304,10 @@ def gen_for(prop):
                 cs += fault_sweep(r, 11, kind="read", nk=8); cs += walks(r, 60, families=("readfaults",))
         elif prop == "C03":
             cs += [story_case(r.fork(), ending=r.choice(PAY_ENDINGS), late_extra="any", npieces=1 + i % 3) for i in range(8 * k)]
-            for amount in ([1, 1000, 21000, 10**6, 10**9, 10**12, 2**32 - 1, 2**32 + 1, 10**18] if T else [1, 21000, 10**9, 2**32 + 1]):
+            # amounts whose policy fee does not fit 32 bits (>= 2^32 msat), with a part declaring a total just below the requirement
+            cs += [story_case(r.fork(), ending=r.choice(PAY_ENDINGS), reject=(["low_total", "low_total_solo"][i % 2], i % 3), amount=[10**12, 10**15, 2 * 10**12, 1000, 10**9][i % 5], npieces=1 + i % 2)
+                   for i in range(10 * k)]
+            for amount in ([1, 1000, 21000, 10**6, 10**9, 10**12, 2**32 - 1, 2**32 + 1, 10**18] if T else [1, 21000, 10**9, 2**32 + 1, 10**12]):
                 cs += [story_case(r.fork(), ending=r.choice(PAY_ENDINGS), amount=amount, npieces=1 + i % 3) for i in range(6 if T else 3)]
             cs += reject_stories(r, 16 * k); cs += bursts(r, 12 * k)
             cs += crash_sweep(r, 2 * k, 3)
